@@ -197,3 +197,91 @@ emit_docstring = Contract(
 )
 emit_docstring.opaque = {"emit_param_str": {"ret": "str"}}
 CONTRACTS.append(emit_docstring)
+
+# ------------------------------------------------------------------------------------------- emit.argparse_function (C04 / C16 / C13: the whole constructor)
+_AF_OPAQUE = {"docstring": {"ret": "str"}, "indent": {"ret": "str"}, "param2argparse_param": {"ret": ("obj", "ast.Expr")}, "ast.parse": {"ret": ("obj", "ast.Module")},
+              "fill": {"ret": "str"}}
+
+
+def _af_ir(n, ret=None, body=None):
+    d = {"name": "str", "doc": "str", "params": ("dict", {"p%d" % i: ("dict", {"typ": "str", "doc": "str"}) for i in range(n)})}
+    if ret == "plain":
+        d["returns"] = ("dict", {"return_type": ("dict", {"typ": "str", "doc": "str"})})
+    elif ret == "default":
+        d["returns"] = ("dict", {"return_type": ("dict", {"typ": "str", "doc": "str", "default": "str"})})
+    else:
+        d["returns"] = None
+    if body is not None:
+        d["_internal"] = ("dict", {"body": ("list", body), "from_name": "str", "from_type": ("lit", "static")})
+    return ("dict", d)
+
+
+def _af_case(name, ir, assume=()):
+    return Case(name, {"intermediate_repr": ir, "emit_default_doc": False, "function_name": ("lit", "set_cli_args"), "function_type": ("lit", "static"),
+                       "wrap_description": False, "word_wrap": True, "docstring_format": ("lit", "rest")}, assume=list(assume))
+
+
+_AF_CASES = [
+    _af_case("params=2", _af_ir(2)),
+    _af_case("params=0", _af_ir(0)),
+    _af_case("params=1,return-plain", _af_ir(1, "plain")),
+]
+
+emit_argparse = Contract(
+    "doctrans.emit:argparse_function",
+    properties=["C04", "C13", "C06"],
+    note="descriptions with 0-2 parameters, without / with a return entry (no default); docstring, indent, param2argparse_param and ast.parse are opaque and logged "
+         "(param2argparse_param renders one option: bounded rt_argparse and the contracts of its helpers cover it)",
+    cases=_AF_CASES,
+    ensures=[
+        Clause("AF-head", "typeis(result, 'FunctionDef') and result.name == 'set_cli_args' and [a.arg for a in result.args.args] == ['argument_parser'] "
+                          "and result.args.kwonlyargs == [] and result.args.defaults == []", note="def set_cli_args(argument_parser)"),
+        Clause("AF-description", "typeis(result.body[1], 'Assign') and result.body[1].targets[0].attr == 'description' and result.body[1].targets[0].value.id == 'argument_parser' "
+                                 "and result.body[1].value.value == %s" % "(D[1:-1] if len(D) > 2 and D[0] == D[-1] and D[0] in ('\"', \"'\") else D)".replace("D", "old_intermediate_repr['doc']"),
+               note="C04: the summary is the parser's description (through set_value)"),
+        Clause("AF-options", "log_param2argparse_param_n == len(old_intermediate_repr['params']) and all(log_param2argparse_param_args[i][0][0] == 'p%d' % i "
+                             "and result.body[2 + i] is log_param2argparse_param_results[i] for i in range(len(old_intermediate_repr['params'])))",
+               note="C04: one add_argument statement per parameter, in the description's order, right after the description"),
+        Clause("AF-return", "typeis(result.body[-1], 'Return') and len(result.body) == 3 + len(old_intermediate_repr['params'])",
+               note="the function ends by returning the parser; nothing else is emitted"),
+        Clause("AF-return-plain", "result.body[-1].value.id == 'argument_parser'", when=["params=2", "params=0", "params=1,return-plain"],
+               note="without a return default the parser alone is returned"),
+        Clause("AF-frame", "unchanged(intermediate_repr, old_intermediate_repr)", note="C13: the caller's description is not modified"),
+    ],
+    canaries=["len(result.body) == 3"],
+)
+emit_argparse.opaque = _AF_OPAQUE
+CONTRACTS.append(emit_argparse)
+
+# ------------------------------------------------------------------------------------------- law: the signature there and back (C03-L, signature half)
+def _sig_ir(kind="int"):
+    params = {"p0": ("dict", {"typ": ("lit", "int"), "doc": "str"}), "p1": ("dict", {"typ": ("lit", "int"), "doc": "str", "default": "int"})} if kind == "int" else \
+        {"p1": ("dict", {"typ": ("lit", "bool"), "doc": "str", "default": "bool"})}
+    return ("dict", {"name": "str", "type": ("lit", "static"), "doc": "str", "returns": None, "params": ("dict", params)})
+
+
+function_signature_roundtrip = Contract(
+    "vf.contracts.laws:function_signature_roundtrip",
+    properties=["C03", "C07", "C05"],
+    note="C03 / C07 for the SIGNATURE, deductively: emit.function followed by parse.function (both real, inlined) on a description with a required int parameter and an int "
+         "parameter with a symbolic default (positional and keyword-only), and on one with a bool default; the docstring text is opaque and get_docstring answers None, "
+         "so what comes back is what the signature alone carries: names, order, defaults (types go through the opaque renderer)",
+    cases=[Case("positional", {"ir": _sig_ir(), "kwonly": False}, assume=["ir['name'] != ''"]), Case("keyword-only", {"ir": _sig_ir(), "kwonly": True}, assume=["ir['name'] != ''"]),
+           Case("bool", {"ir": _sig_ir("bool"), "kwonly": True}, assume=["ir['name'] != ''"])],
+    use_contract_for=["doctrans.defaults_utils:needs_quoting"],
+    ensures=[
+        Clause("SRT-name", "result['name'] == old_ir['name']", note="the definition's name"),
+        Clause("SRT-names", "list(result['params'].keys()) == ['p0', 'p1']", when=["positional", "keyword-only"], note="C03 / C07: every parameter once, in order"),
+        Clause("SRT-required", "('default' in result['params']['p0']) == False", when=["positional", "keyword-only"],
+               note="C03: a parameter without default stays without one (REFUTED on the pinned tree: finding Fn-nodefault - every parameter is emitted with `= None`)"),
+        Clause("SRT-default-int", "result['params']['p1']['default'] == old_ir['params']['p1']['default'] and typeis(result['params']['p1']['default'], 'int')",
+               when=["positional", "keyword-only"], note="C03: an int default comes back with value and type - zero and negatives included; defaults stay aligned"),
+        Clause("SRT-default-bool", "list(result['params'].keys()) == ['p1'] and result['params']['p1']['default'] == old_ir['params']['p1']['default'] "
+                                   "and typeis(result['params']['p1']['default'], 'bool')", when=["bool"]),
+        Clause("SRT-frame", "unchanged(ir, old_ir)", note="C13: neither conversion touches the description it was given"),
+    ],
+    canaries=["result['params']['p1']['default'] == 0"],
+)
+function_signature_roundtrip.opaque = {"to_docstring": {"ret": "str"}, "ast_parse_fix": {"ret": ("obj", "ast.expr")}, "get_docstring": {"ret": "none"},
+                                       "to_code": {"ret": "str"}, "_to_code": {"ret": "str"}}
+CONTRACTS.append(function_signature_roundtrip)
